@@ -1345,3 +1345,209 @@ func c08r15(rc *core.RC) {
 		rc.Unknown("encoder/marshaler-calls", token.NoPos, "found %d marshaler method calls on reflected values (confirmed: 3 in AppendMarshalJSON, 3 in its indent twin, 1 each in the two text helpers)", n)
 	}
 }
+
+// ---- C08.R16 a map behind several pointers at the root ----
+
+// The root compiler (typeToCode) strips one pointer and compiles the rest. A map value is itself the pointer the map
+// opcodes work on, so `*map` is compiled as a pointer code again (ptrCode(PtrTo(typ))). The same holds behind more
+// pointers: when what remains after the stripped pointer is a chain of pointers ending in a map, the whole original
+// type has to go through ptrCode, or the map opcodes read a pointer variable as a map header.
+func c08r16(rc *core.RC) {
+	p := rc.P
+	fd := p.Func("encoder", "Compiler.typeToCode")
+	key := "encoder.(*Compiler).typeToCode/pointer-chain-to-map"
+	if fd == nil || fd.Body == nil {
+		rc.Unknown(key, token.NoPos, "typeToCode not found")
+		return
+	}
+	rc.Touch("encoder.(*Compiler).typeToCode")
+	info := p.Info(fd)
+	// the variable that keeps the type as it was before the pointer was stripped
+	var typParam types.Object
+	for _, f := range fd.Type.Params.List {
+		for _, nm := range f.Names {
+			typParam = info.Defs[nm]
+		}
+	}
+	saved := map[types.Object]bool{}
+	ast.Inspect(fd.Body, func(m ast.Node) bool {
+		if as, ok := m.(*ast.AssignStmt); ok && len(as.Lhs) == 1 && len(as.Rhs) == 1 && core.ObjOf(info, as.Rhs[0]) == typParam {
+			if o := core.ObjOf(info, as.Lhs[0]); o != nil && o != typParam {
+				saved[o] = true
+			}
+		}
+		return true
+	})
+	// (1) the direct case: kind Map under isPtr returns ptrCode(PtrTo(typ))
+	direct, chain := false, false
+	ast.Inspect(fd.Body, func(m ast.Node) bool {
+		ifs, ok := m.(*ast.IfStmt)
+		if !ok {
+			return true
+		}
+		var ret *ast.CallExpr
+		for _, st := range ifs.Body.List {
+			if r, isRet := st.(*ast.ReturnStmt); isRet && len(r.Results) == 1 {
+				if c, isCall := core.Unparen(r.Results[0]).(*ast.CallExpr); isCall && strings.HasSuffix(core.CalleeName(info, c), "ptrCode") {
+					ret = c
+				}
+			}
+		}
+		if ret == nil || len(ret.Args) != 1 {
+			return true
+		}
+		mentionsMap := false
+		ast.Inspect(ifs.Cond, func(k ast.Node) bool {
+			if sel, isSel := k.(*ast.SelectorExpr); isSel && sel.Sel.Name == "Map" {
+				mentionsMap = true
+			}
+			return true
+		})
+		if saved[core.ObjOf(info, ret.Args[0])] && mentionsMap {
+			chain = true
+		}
+		if c, isCall := core.Unparen(ret.Args[0]).(*ast.CallExpr); isCall && strings.HasSuffix(core.CalleeName(info, c), "PtrTo") {
+			direct = true
+		}
+		return true
+	})
+	rc.Check(direct, key+"/one-pointer", fd.Pos(), "a root *map is compiled as a pointer code over the map (ptrCode(PtrTo(typ)))")
+	rc.Check(chain, key, fd.Pos(), "when the type that remains after the stripped pointer is a pointer chain ending in a map, the original type goes through ptrCode, one pointer code level per pointer: without it json.Marshal(&pm) for pm a *map[string]int hands the map opcodes the address of a pointer variable (fatal out of memory in the runtime's map iteration)")
+}
+
+// ---- C08.R17 / C08.R18 pointer-shaped structs: recursive programs and the root value ----
+
+// C08.R17: OpRecursive enters the linked program with the address of the struct it refers to. The program is a copy of
+// the one compiled for the struct type, and for a struct that is stored directly in an interface word (a single
+// pointer-shaped field) that program was compiled for the root position, where the head opcode receives the field's
+// value instead of the struct's address. The head of every linked copy therefore has to carry IndirectFlags.
+func c08r17(rc *core.RC) {
+	p := rc.P
+	fd := p.Func("encoder", "Compiler.linkRecursiveCode")
+	key := "encoder.(*Compiler).linkRecursiveCode/linked-program-is-entered-by-address"
+	if fd == nil || fd.Body == nil {
+		rc.Unknown(key, token.NoPos, "linkRecursiveCode not found")
+		return
+	}
+	rc.Touch("encoder.(*Compiler).linkRecursiveCode")
+	info := p.Info(fd)
+	// the variable that receives copyOpcode(...) and is stored into <jmp>.Code
+	var copyVar types.Object
+	ast.Inspect(fd.Body, func(m ast.Node) bool {
+		as, ok := m.(*ast.AssignStmt)
+		if !ok || len(as.Lhs) != 1 || len(as.Rhs) != 1 {
+			return true
+		}
+		if c, isCall := core.Unparen(as.Rhs[0]).(*ast.CallExpr); isCall && strings.HasSuffix(core.CalleeName(info, c), "copyOpcode") {
+			copyVar = core.ObjOf(info, as.Lhs[0])
+		}
+		return true
+	})
+	if copyVar == nil {
+		rc.Unknown(key, fd.Pos(), "no copy of the struct's program (copyOpcode) found")
+		return
+	}
+	flagged := false
+	ast.Inspect(fd.Body, func(m ast.Node) bool {
+		as, ok := m.(*ast.AssignStmt)
+		if !ok || as.Tok != token.OR_ASSIGN || len(as.Lhs) != 1 {
+			return true
+		}
+		sel, isSel := core.Unparen(as.Lhs[0]).(*ast.SelectorExpr)
+		if !isSel || sel.Sel.Name != "Flags" || core.ObjOf(info, sel.X) != copyVar {
+			return true
+		}
+		ast.Inspect(as.Rhs[0], func(k ast.Node) bool {
+			if id, isIdent := k.(*ast.Ident); isIdent && id.Name == "IndirectFlags" {
+				flagged = true
+			}
+			return true
+		})
+		return true
+	})
+	rc.Check(flagged, key, fd.Pos(), "the head of the program copied for a recursive reference is given IndirectFlags: OpRecursive hands it the address of the struct. Without it a pointer-shaped recursive struct passed by value (type D struct{ Sub map[string]D }, type D struct{ Sub *D }) runs its nested values through a head opcode that takes the address for the field's value: fatal out of memory, or output that is not JSON")
+}
+
+// C08.R18: in the root position a pointer-shaped struct is stored directly in the interface word, and the generic
+// struct head opcode hands the value opcode that word: the pointer itself, not the address of the field. Value
+// opcodes with a fused struct head (numbers, strings, slices, maps, structs ...) test IndirectFlags themselves; the two
+// that have none (OpInterfacePtr, OpRecursivePtr) have to follow one pointer less, which codeToOpcode arranges after
+// the recursive references were linked (their copies are entered by address, C08.R17).
+func c08r18(rc *core.RC) {
+	p := rc.P
+	fd := p.Func("encoder", "Compiler.codeToOpcode")
+	key := "encoder.(*Compiler).codeToOpcode/direct-root-struct"
+	if fd == nil || fd.Body == nil {
+		rc.Unknown(key, token.NoPos, "codeToOpcode not found")
+		return
+	}
+	rc.Touch("encoder.(*Compiler).codeToOpcode")
+	info := p.Info(fd)
+	var link, conv *ast.CallExpr
+	var convUnderDirect bool
+	var convFn *types.Func
+	ast.Inspect(fd.Body, func(m ast.Node) bool {
+		switch x := m.(type) {
+		case *ast.CallExpr:
+			if strings.HasSuffix(core.CalleeName(info, x), "linkRecursiveCode") {
+				link = x
+			}
+		case *ast.IfStmt:
+			direct := false
+			ast.Inspect(x.Cond, func(k ast.Node) bool {
+				if u, isNot := k.(*ast.UnaryExpr); isNot && u.Op == token.NOT {
+					if sel, isSel := core.Unparen(u.X).(*ast.SelectorExpr); isSel && sel.Sel.Name == "isIndirect" {
+						direct = true
+					}
+				}
+				return true
+			})
+			if direct {
+				for _, st := range x.Body.List {
+					es, isExpr := st.(*ast.ExprStmt)
+					if !isExpr {
+						continue
+					}
+					if c, isCall := es.X.(*ast.CallExpr); isCall {
+						if f := core.Callee(info, c); f != nil && p.DeclOf(f) != nil && f.Pkg() != nil && strings.HasSuffix(f.Pkg().Path(), "internal/encoder") {
+							conv, convFn, convUnderDirect = c, f, true
+						}
+					}
+				}
+			}
+		}
+		return true
+	})
+	if conv == nil || !convUnderDirect {
+		rc.Bad(key, fd.Pos(), "codeToOpcode does nothing for a root struct that is not indirect: the interface and recursive value opcodes of a struct whose only field is such a pointer follow the pointer once too often (json.Marshal(struct{ P *interface{} }{&v}) panics; type D struct{ Sub *D } by value loses a level)")
+		return
+	}
+	rc.Check(link != nil && link.Pos() < conv.Pos(), key+"/after-linking", conv.Pos(), "the conversion of the root program happens after linkRecursiveCode copied it (the copies keep the by-address form)")
+	cd := p.DeclOf(convFn)
+	handled := map[string]bool{}
+	if cd != nil && cd.Body != nil {
+		ast.Inspect(cd.Body, func(m ast.Node) bool {
+			cc, ok := m.(*ast.CaseClause)
+			if !ok {
+				return true
+			}
+			dec := false
+			for _, st := range cc.Body {
+				if ids, isInc := st.(*ast.IncDecStmt); isInc && ids.Tok == token.DEC {
+					if sel, isSel := core.Unparen(ids.X).(*ast.SelectorExpr); isSel && sel.Sel.Name == "PtrNum" {
+						dec = true
+					}
+				}
+			}
+			if dec {
+				for _, l := range cc.List {
+					handled[core.Src(p.Fset, l)] = true
+				}
+			}
+			return true
+		})
+	}
+	for _, op := range []string{"OpInterfacePtr", "OpRecursivePtr"} {
+		rc.Check(handled[op], key+"/"+op, conv.Pos(), "%s follows one pointer less below the generic head of a direct root struct (%s has a case for it that lowers PtrNum)", op, convFn.Name())
+	}
+}
